@@ -160,6 +160,41 @@ Definition set_strict (s : state) (b : bool) : state :=
 Definition set_names (s : state) (n : list string) : state :=
   mkState (span s) (index s) (vars s) (registry s) (adict s) (strict s) (kind s) n (dflt s).
 
+Definition set_span (s : state) (sp : list Z) : state :=
+  mkState sp (index s) (vars s) (registry s) (adict s) (strict s) (kind s) (names s) (dflt s).
+Definition set_index (s : state) (i : list string) : state :=
+  mkState (span s) i (vars s) (registry s) (adict s) (strict s) (kind s) (names s) (dflt s).
+Definition set_dflt (s : state) (d : option dreq) : state :=
+  mkState (span s) (index s) (vars s) (registry s) (adict s) (strict s) (kind s) (names s) d.
+
+(* The object keeps EVERYTHING in one __dict__: the series under '_' + name, and its own bookkeeping under `span`, `index`,
+   `_attributes`, `_strict` (models: `names`, `dtype`).  An attribute assignment that targets one of these names, or any name
+   starting with '_', is an assignment to the bookkeeping, not one of the container operations the property lists. *)
+Definition underscored (x : string) : bool :=
+  match x with String c _ => Ascii.eqb c "_"%char | EmptyString => false end.
+Definition bookkeeping (k : ckind) (name : string) : bool :=
+  (String.eqb name "span" || String.eqb name "index" || underscored name ||
+   match k with CVC => false | _ => (String.eqb name "names" || String.eqb name "dtype")%bool end)%bool.
+
+Definition as_int_list (o : operand) : option (list Z) :=
+  match o with
+  | OSeq _ items => fold_right (fun i acc => match i, acc with OScalar (PInt z), Some l => Some (z :: l) | _, _ => None end) (Some []) items
+  | ORange a b c => Some (range_list a b c)
+  | _ => None
+  end.
+Definition as_str_list (o : operand) : option (list string) :=
+  match o with
+  | OSeq _ items => fold_right (fun i acc => match i, acc with OScalar (PStr x), Some l => Some (x :: l) | _, _ => None end) (Some []) items
+  | _ => None
+  end.
+Definition as_dreq (o : operand) : option dreq :=        (* the Python types float / int / bool / str are written as their names *)
+  match o with
+  | OScalar (PStr x) => if String.eqb x "float" then Some RFloat else if String.eqb x "int" then Some RInt
+                        else if String.eqb x "bool" then Some RBool else if String.eqb x "str" then Some RStr else None
+  | _ => None
+  end.
+Definition tail_of (x : string) : string := match x with String _ r => r | EmptyString => EmptyString end.
+
 Definition res : Type := (state * outcome unit)%type.
 Definition ok (s : state) : res := (s, Ret tt).
 Definition err (s : state) (e : exn) : res := (s, Raise e).
@@ -510,7 +545,25 @@ Section Model.
     end.
 
   (* object.__setattr__(name, value): data descriptors of the class first, then the instance dict *)
+  (* an assignment to the object's own bookkeeping (see `bookkeeping`): what object.__setattr__ then does.  OtherError = the value is
+     not of the kind the entry holds (or the entry is the attribute registry / a series object): outside the model *)
+  Definition book_setattr (name : string) (value : operand) (s : state) : res :=
+    if String.eqb name "span" then
+      match as_int_list value with Some l => ok (set_span s l) | None => err s OtherError end
+    else if String.eqb name "index" then
+      match as_str_list value with Some l => ok (set_index s l) | None => err s OtherError end
+    else if String.eqb name "names" then
+      match as_str_list value with Some l => ok (set_adict (set_names s l) (assoc_set name value (adict s))) | None => err s OtherError end
+    else if String.eqb name "dtype" then
+      match as_dreq value with Some d => ok (set_adict (set_dflt s (Some d)) (assoc_set name value (adict s))) | None => err s OtherError end
+    else if (String.eqb name "_attributes" || String.eqb name "_strict")%bool then err s OtherError
+    else match assoc (tail_of name) (vars s) with
+         | Some _ => err s OtherError                              (* '_' + X : the series object of X itself is replaced *)
+         | None => ok (set_adict s (assoc_set name value (adict s)))
+         end.
+
   Definition obj_setattr (name : string) (value : operand) (s : state) : res :=
+    if bookkeeping (kind s) name then book_setattr name value s else
     if String.eqb name "strict" then
       match truthy value with Ret b => ok (set_strict s b) | Raise e => err s e end
     else if String.eqb name "values" then values_setter value s
@@ -602,8 +655,16 @@ Section Model.
 
   (* VectorContainer.add_variable.  The array built by `np.array(value).flatten()` / `np.full(len(span), value)` is
      rank 1 by construction: it is described by its dtype, its number m0 of cells and the cells. *)
+  (* '_' + name in self.__dict__ *)
+  Definition storage_taken (name : string) (s : state) : bool :=
+    (String.eqb name "attributes" || String.eqb name "strict" ||
+     match kind s with CLinker _ => (String.eqb name "LAGS" || String.eqb name "LEADS")%bool | _ => false end ||
+     match assoc name (vars s) with Some _ => true | None => false end ||
+     match assoc (String "_" name) (adict s) with Some _ => true | None => false end)%bool.
+
   Definition base_add_variable (name : string) (value : operand) (dt : option dreq) (s : state) : res :=
     if mem name (index s) then err s DuplicateNameError
+    else if storage_taken name s then err s DuplicateNameError       (* fix d82b358: the storage key is taken already *)
     else
       let n := n_of s in
       match (if is_sequence value then
